@@ -245,6 +245,18 @@ V('c14-eos-lt', 'C14', 'C14.R3',
 V('c14-no-delete-on-eos', 'C14', 'C14.R1',
   (MAINF, "            rtn_objs_list = objs_list\n            del self.enumeration_contexts[EnumerationContext]\n", "            rtn_objs_list = objs_list\n"),
   'eos-mismatch')
+V('c14-close-keeps-context', 'C14', 'C14.R1',
+  (MAINF, "        if EnumerationContext in self.enumeration_contexts:\n            del self.enumeration_contexts[EnumerationContext]\n        else:",
+          "        if EnumerationContext in self.enumeration_contexts:\n            pass\n        else:"),
+  'close-shape')
+V('c14-close-wrong-status', 'C14', 'C14.R1',
+  (MAINF, "            raise CIMError(\n                CIM_ERR_INVALID_ENUMERATION_CONTEXT,\n                _format(\"EnumerationContext {0!A} not found in CIM server \"",
+          "            raise CIMError(\n                CIM_ERR_FAILED,\n                _format(\"EnumerationContext {0!A} not found in CIM server \""),
+  'close-shape')
+V('c14-close-unknown-silent', 'C14', 'C14.R1',
+  (MAINF, "        if EnumerationContext in self.enumeration_contexts:\n            del self.enumeration_contexts[EnumerationContext]\n        else:\n            raise CIMError(\n                CIM_ERR_INVALID_ENUMERATION_CONTEXT,\n                _format(\"EnumerationContext {0!A} not found in CIM server \"\n                        \"enumeration contexts.\", EnumerationContext))",
+          "        self.enumeration_contexts.pop(EnumerationContext, None)"),
+  'close-shape')
 V('c14-check-after-consume', 'C14', 'C14.R2',
   [(MAINF, "        if context_data['pull_type'] != req_type:\n            raise CIMError(\n                CIM_ERR_INVALID_ENUMERATION_CONTEXT,\n                _format(\"Invalid pull operations {0!A} does not match \"\n                        \"expected {1!A} for EnumerationContext {2!A}\",\n                        context_data['pull_type'], req_type,\n                        EnumerationContext))\n", ""),
    (MAINF, "        # returns tuple of list of insts, eos, and context_id\n",
@@ -848,3 +860,57 @@ V('c02-embedded-nonstring', 'C02', 'C02.R1',
   (TPF, "        if not isinstance(val, str):\n            # The element has a non-string CIM type\n", "        if False:\n            # The element has a non-string CIM type\n"), 'TypeError')
 V('c02-exponential-regex', 'C02', 'C02.R9',
   (OBJ, "_KB_DOUBLE_QUOTED = r'\"(?:[^\"\\\\]|\\\\.)*\"'", "_KB_DOUBLE_QUOTED = r'\"(?:[^\"\\\\]+|\\\\.)*\"'"), 'exponential-regex')
+
+# ---- round f rules ----------------------------------------------------------
+TYPESF = 'pywbem/_cim_types.py'
+V('c14-swapped-open-args', 'C14', 'C14.R13',
+  (MAINF, "                                   MaxObjectCount,\n                                   ContinueOnError)",
+          "                                   ContinueOnError,\n                                   MaxObjectCount)", 1, 2),
+  'swapped-arguments')
+V('c20-lookup-key-lowered', 'C20', 'C20.R10',
+  ('pywbem/_valuemapping.py', "            return self._v2b_dict[values_str]", "            return self._v2b_dict[values_str.lower()]"),
+  'key-transformed')
+V('c20-lookup-key-int', 'C20', 'C20.R10',
+  ('pywbem/_valuemapping.py', "            return self._b2v_single_dict[element_value]", "            return self._b2v_single_dict[int(element_value)]"),
+  'key-transformed')
+V('c18-dest-name-casefold', 'C18', 'C18.R10',
+  ('pywbem/_subscription_manager.py', "            if name_prop and name_prop.value == name:", "            if name_prop and name_prop.value.upper() == name.upper():", 1, 0),
+  'value-folded')
+V('c16-callback-log-first-line', 'C16', 'C16.R5',
+  ('pywbem/_listener.py', "                    callback.__name__, exc.__class__.__name__, exc)", "                    callback.__name__, exc.__class__.__name__,\n                    str(exc).splitlines()[0])"),
+  'IndexError')
+V('c09-cchar-plus', 'C09', 'C09.R12',
+  ('pywbem/_mof_compiler.py', "stringvalue_re = fr'\"({sChar})*\"'", "stringvalue_re = fr'\"(({sChar})+)*\"'"),
+  'exponential-regex')
+V('c08-qualifier-if-not-value', 'C08', 'C08.R10',
+  ('pywbem/_mof_compiler.py', "    if qval is None:\n        if qualdecl.type == 'boolean':\n            qval = True", "    if not qval:\n        if qualdecl.type == 'boolean':\n            qval = True"),
+  'truthiness-default')
+V('c10-class-default-bare-value', 'C10', 'C10.R15',
+  ('pywbem_mock/_providerdispatcher.py',
+   "                    modified_instance[pn] = CIMProperty(\n                        pn, cl_prop.value, type=cl_prop.type,\n                        is_array=cl_prop.is_array,\n                        array_size=cl_prop.array_size,\n                        embedded_object=cl_prop.embedded_object)",
+   "                    modified_instance[pn] = cl_prop.value"),
+  'type-dropped')
+V('c04-iparam-bool-any-name', 'C04', 'C04.R10',
+  ('pywbem/_tupleparse.py', "        if isinstance(child, str) and \\\n                _name.lower() in ('deepinheritance', 'localonly',\n                                  'includequalifiers', 'includeclassorigin'):\n            if child.lower() in ('true', 'false'):",
+   "        if isinstance(child, str):\n            if child.lower() in ('true', 'false'):"),
+  'untyped-conversion')
+V('c02-context-dropped-when-empty', 'C02', 'C02.R10',
+  ('pywbem/_cim_operations.py', "        rtn_ctxt = None if end_of_sequence else (enumeration_context,\n                                                 namespace)",
+   "        rtn_ctxt = None if end_of_sequence or enumeration_context == '' \\\n            else (enumeration_context, namespace)"),
+  'context-vs-eos')
+V('c02-context-kept-at-eos', 'C02', 'C02.R10',
+  ('pywbem/_cim_operations.py', "        rtn_ctxt = None if end_of_sequence else (enumeration_context,\n                                                 namespace)",
+   "        rtn_ctxt = (enumeration_context, namespace)"),
+  'context-vs-eos')
+V('c01-real32-seven-digits', 'C01', 'C01.R15',
+  (TYPESF, "        s = f'{obj:.11G}'", "        s = f'{obj:.7G}'"), 'real32:precision')
+V('c01-real64-exponent-dropped', 'C01', 'C01.R15',
+  (TYPESF, "            parts[0] = parts[0] + '.0'\n            s = 'E'.join(parts)\n        return s\n    else:", "            s = parts[0] + '.0'\n        return s\n    else:"),
+  'real64:partial-text')
+V('c07-float-str-12-digits', 'C07', 'C07.R8',
+  (TYPESF, "        return float.__repr__(self)", "        return '%.12g' % self"), 'precision')
+V('c06-field-from-unpadded-text', 'C06', 'C06.R11',
+  (TYPESF, "        value_str = f'{value:0{field_len}d}'", "        value_str = str(value)"), 'unpadded-field')
+V('c03-array-items-generic', 'C03', 'C03.R3b',
+  ('pywbem/_cim_obj.py', "            else:\n                array_xml.append(_cim_xml.VALUE(atomic_to_cim_xml(v)))\n        value_xml = _cim_xml.VALUE_ARRAY(array_xml)", "            else:\n                array_xml.append(tocimxml(v))\n        value_xml = _cim_xml.VALUE_ARRAY(array_xml)"),
+  'child-sequence')
